@@ -1186,6 +1186,8 @@ class GetCapabilitiesResponse(Response):
         capabilities: list[SupportsBytes | bytes]
         if capability_id == GetCapabilitiesCommand.CapabilityId.EVENTS_SUPPORTED:
             capabilities = [EventId(parameters[2 + x]) for x in range(capability_count)]
+        elif capability_count == 0:
+            capabilities = []
         else:
             capability_size = (len(parameters) - 2) // capability_count
             capabilities = [
